@@ -121,6 +121,13 @@ def perturb_canon(c, r):
         return c
     if t == "qc":
         ops = c["ops"]
+        comp = [o for o in ops if len(o) > 4]
+        if comp and r.random() < 0.85:        # same gate names on the same qubits, another DEFINITION of a composite gate
+            o = r.choice(comp)
+            nd_ = perturb_canon(o[4], r)
+            if nd_ is not None:
+                o[4] = nd_
+                return c
         par = [i for i, o in enumerate(ops) if o[1]]
         if par and r.random() < 0.85:         # same gate sequence, another parameter value
             o = ops[r.choice(par)]
@@ -293,6 +300,11 @@ class Generator:
         if allow_invalid and r.random() < self.cfg["p_invalid"]:
             R, S, ph = self._break_stabilizer(R, S, ph)
         style = r.random()
+        if style > 0.9:
+            # the fourth input format: a Clifford circuit (the group is then whatever the circuit prepares)
+            st = self._call("stab.new", [self.need_qc(ex, n, allow_invalid=allow_invalid)])
+            pre.append(st)
+            return self.ref(st["id"])
         if style < 0.15:
             return self.lit(Lt.stabilizer_obj(R, S, ph))
         if style < 0.55:
@@ -357,8 +369,13 @@ class Generator:
         if n >= 2 and r.random() < 0.1:
             k = r.randint(1, n - 1)
             qregs = [["qa", k], ["qb", n - k]]     # the same qubits, declared as two registers
-        return self.lit(Lt.qc(n, Lt.random_clifford_ops(r, n, r.randint(0, 10), non_clifford=bad,
-                                                        extended=r.random() < extended), qregs=qregs))
+        ops = Lt.random_clifford_ops(r, n, r.randint(0, 10), non_clifford=bad, extended=r.random() < extended)
+        if r.random() < self.cfg.get("qc_composite", 0.08):
+            # a user-defined composite gate: the NAME is always the same, the definition varies
+            k = r.randint(1, min(2, n))
+            sub = Lt.qc(k, Lt.random_clifford_ops(r, k, r.randint(1, 4)))
+            ops.insert(r.randrange(len(ops) + 1), ("layer", r.sample(range(n), k), [], [], sub))
+        return self.lit(Lt.qc(n, ops, qregs=qregs))
 
     def need_graph(self, ex, n):
         r = self.rng
@@ -940,8 +957,11 @@ class Generator:
     def gen_sibling(self, ex, key):
         """Another cache-backed call on the same table (key e.g. "mub3-linear" / "stabilizer4-star")."""
         r = self.rng
-        kind, rest = ("mub", key[3:]) if key.startswith("mub") else ("stabilizer", key[10:])
-        n, conn = int(rest[0]), rest[2:]
+        import re
+        mt = re.match(r"^(mub|stabilizer)(\d)-(.*)$", key or "")
+        if not mt:
+            return []
+        kind, n, conn = mt.group(1), int(mt.group(2)), mt.group(3)
         pre = []
         if kind == "mub":
             op = r.choice(["mub.get_mubs", "mub.get_mub_circuits", "mub.get_mub_info", "lookup.mub_circuit_lookup",
@@ -1195,8 +1215,11 @@ class Generator:
         self.cfg["length"] = 0
         if fam in ("graph", "stab", "lc", "lin", "rot"):
             self.cfg["p_reuse"] = 0.9      # work on few objects: memo-invalidation needs query / change / query on ONE object
+        if opname == "stab.new":
+            self.cfg["qc_composite"] = 0.3
         if opname == "prep.compress_preparation_circuit":
             self.cfg["qc_extended"] = 0.95  # circuits with parameterised Clifford gates: neighbours differ in a parameter only
+            self.cfg["qc_composite"] = 0.3
             self.cfg["p_reuse"] = 0.2
         n = (self._job or {}).get("n")
         if n:
